@@ -2,9 +2,12 @@ use crate::Monitor;
 pub mod c01;
 pub mod c03;
 pub mod c04;
+pub mod cone;
+pub mod c07;
 pub mod c10;
 pub mod c11;
 pub mod c14;
+pub mod c15;
 pub mod c16;
 pub mod c17;
 pub mod c19;
@@ -16,9 +19,14 @@ pub fn lookup(id: &str) -> Option<Monitor> {
     "C02" => Some(c01::monitor_c02()),
     "C03" => Some(c03::monitor()),
     "C04" => Some(c04::monitor()),
+    "C05" => Some(cone::monitor_c05()),
+    "C06" => Some(cone::monitor_c06()),
+    "C07" => Some(c07::monitor_c07()),
+    "C08" => Some(c07::monitor_c08()),
     "C10" => Some(c10::monitor()),
     "C11" => Some(c11::monitor()),
     "C14" => Some(c14::monitor()),
+    "C15" => Some(c15::monitor()),
     "C16" => Some(c16::monitor()),
     "C17" => Some(c17::monitor()),
     "C18" => Some(c18::monitor()),
